@@ -7,7 +7,10 @@ request : trace <H|N|S> <nfiles> [c<k>|-] <layer>,<layer>,…
                 | s<digits> (location replaced by a symlink to a list with these packages)
           c<k>  = the context is cancelled once the trace has made k re-extractions (k ≥ 1); - or absent = never
           history mode: H = one history entry per layer (CreatedBy "cmd<i>"), N = no history, S = last entry dropped
-reply   : n=<chain layers> pk=<tok>,<tok>…  spec=<tok>,…      (sorted; "-" when empty)
+reply   : n=<chain layers> pk=<tok>,<tok>…  spec=<tok>,…  al=<ord|e>:<hex cmd|->,…   (pk/spec sorted; "-" when empty)
+          al = the chain layers the SPECIFICATION prescribes (`Spec.specChain`), one entry per chain layer in order:
+               ordinal of its v1 layer (e = empty layer) and its command; the check holds the implementation's
+               DiffID/Command against it
           pk   tok = f<file>p<pkg>@<index>:<v1 layer ordinal | e>:<hex command | ->   or f<file>p<pkg>@nil (no LayerDetails)
           spec tok = f<file>p<pkg>@<least L with the package in every view L..last>
           or `loaderr` when the history cannot be aligned, `scanerr` when there is no chain layer at all
@@ -84,7 +87,9 @@ def run (mode : String) (nf : Nat) (cancelAt : Option Nat) (ls : String) : Strin
             match originSpec (img f) p with
             | some L => s!"f{f}p{p}@{L}"
             | none => s!"f{f}p{p}@none"
-          s!"n={n} pk={joinWith "," (sortStr toks)} spec={joinWith "," (sortStr spec)}"
+          let al := (specChain v1.length hist).map fun cm =>
+            s!"{match cm.layer with | some k => toString k | none => "e"}:{if cm.cmd = "" then "-" else hexOfStr cm.cmd}"
+          s!"n={n} pk={joinWith "," (sortStr toks)} spec={joinWith "," (sortStr spec)} al={joinWith "," al}"
 
 def handle (line : String) : String :=
   let okMode (m : String) := m = "H" || m = "N" || m = "S"
